@@ -84,6 +84,25 @@ Section Abstract.
             | None => None
             end
         | Node (K KStr _ _) (Node (Str s) [] :: _) => Some (Lit (VStr s))
+        | Node (K KAssign _ _) [Node (Str op) []; lhs; rhs] =>
+            (* x += e, o.k += e in sources; x = e, o.k = e as the rewriter builds them (assignments to temporaries
+               only occur inside injected sequences, which are read above) *)
+            let target :=
+              match lhs with
+              | Node (K KMember _ _) [obj; Node (K KIdentName _ _) [Node (Str kname) []]] =>
+                  match abstract f obj with Some ox => Some (inr (ox, kname)) | None => None end
+              | _ => match ident_sym lhs with
+                     | Some x => if String.prefix vp x then None else Some (inl x)
+                     | None => None
+                     end
+              end in
+            match target, abstract f rhs with
+            | Some (inl x), Some ex =>
+                if String.eqb op "+=" then Some (AddAsgV x ex) else if String.eqb op "=" then Some (AsgV x ex) else None
+            | Some (inr (ox, kname)), Some ex =>
+                if String.eqb op "+=" then Some (AddAsgM ox kname ex) else if String.eqb op "=" then Some (AsgM ox kname ex) else None
+            | _, _ => None
+            end
         | Node (K KBin _ _) [Node (Str "+") []; l; r] =>
             match abstract f l, abstract f r with
             | Some a, Some b => Some (Add a b)
@@ -180,6 +199,10 @@ Fixpoint expr_eqb (a b : expr) : bool :=
   | Add l r, Add l' r' => expr_eqb l l' && expr_eqb r r'
   | CallE f x, CallE f' x' => expr_eqb f f' && expr_eqb x x'
   | Par x, Par y => expr_eqb x y
+  | AddAsgV x e, AddAsgV y e' => String.eqb x y && expr_eqb e e'
+  | AsgV x e, AsgV y e' => String.eqb x y && expr_eqb e e'
+  | AddAsgM o k e, AddAsgM o' k' e' => expr_eqb o o' && String.eqb k k' && expr_eqb e e'
+  | AsgM o k e, AsgM o' k' e' => expr_eqb o o' && String.eqb k k' && expr_eqb e e'
   | MCall0 o m, MCall0 o' m' => expr_eqb o o' && String.eqb m m'
   | CallT0 f t, CallT0 f' t' => expr_eqb f f' && expr_eqb t t'
   | MCall1 o m a, MCall1 o' m' a' => expr_eqb o o' && String.eqb m m' && expr_eqb a a'
